@@ -63,6 +63,13 @@ def report(prop, tier, seed, failures, coverage, wall_s, assumptions, model_viol
             print(out)
         EV.write_evidence(prop, tier, seed, dict(coverage, machinery_failure=True), wall_s, 0, assumptions)
         return 2
+    oracle = [f for f in failures if f.get('facet') == 'oracle']
+    if oracle:
+        for f in oracle[:5]:
+            print('ORACLE-MISMATCH: the specification\'s matcher disagrees with re on its own reference text '
+                  '(specification defect, not a verdict on /repo): %s %s' % (f.get('term'), json.dumps(EV._plain(f.get('detail')))[:500]))
+        EV.write_evidence(prop, tier, seed, dict(coverage, machinery_failure=True), wall_s, 0, assumptions)
+        return 2
     entries, listed, unlisted = KF.classify(prop, failures)
     for e in entries:
         hit = listed.get(e['id'], [])
